@@ -59,6 +59,14 @@ def make_wl(rng, k):
         opts["read_group"] = "tag"
         spec["n_chr"] = max(3, spec.get("n_chr", 3))
         opts["force_fault"] = {"kind": "kill", "label_rx": r":open:w:.*_collected$", "nth": -1 if k % 32 == 4 else 0, "phase": "after"}
+    if k is not None and k % 16 == 9:
+        # two experiments in one process (--threads 1), reads without a group in both: what the first experiment's grouper did
+        # must not change how the second one reports its ungrouped reads
+        spec["n_exp"] = 2
+        spec["exp_mode"] = "same"
+        spec["group_missing"] = 3
+        opts["force_cell"] = {"threads": 1, "sched": {"policy": "serial", "seed": 0}}
+        opts["no_fault"] = True
     opts["annotated"] = True
     strats = ["unique_only", "with_ambiguous", "unique_splicing_consistent", "unique_inconsistent", "all"]
     opts["transcript_quant"] = strats[i % 5]
